@@ -2,6 +2,6 @@
 # quick check of all 20 properties in parallel; prints only runs that are not clean (exit != 0), then a one-line tally
 cd /verif
 tier=${1:-quick}
-seq -w 1 20 | xargs -P 16 -I{} sh -c "/venv/bin/python -m sa.run C{} --tier $tier > /tmp/qa_C{}.out 2>&1; echo \"C{} \$?\" " | sort > /tmp/qa_summary.txt
+seq -w 1 20 | xargs -P ${PAR:-16} -I{} sh -c "/venv/bin/python -m sa.run C{} --tier $tier > /tmp/qa_C{}.out 2>&1; echo \"C{} \$?\" " | sort > /tmp/qa_summary.txt
 grep -v " 0$" /tmp/qa_summary.txt | while read p rc; do echo "== $p exit $rc"; grep "ANALYSIS\|VIOLATION\|violated\|undecided" /tmp/qa_$p.out | head -5 | cut -c1-300; done
 echo "clean: $(grep -c ' 0$' /tmp/qa_summary.txt)/20"
